@@ -19,26 +19,31 @@ import (
 
 // Harness describes one symbolic harness (harness/harnesses.json).
 type Harness struct {
-	Name        string   `json:"name"`     // key in vfHarnesses
-	Property    string   `json:"property"` // C01..C20
-	Pkg         string   `json:"pkg"`      // geom | rtree
-	Func        string   `json:"func"`
-	Tier        string   `json:"tier"` // quick | thorough
-	Kind        string   `json:"kind"` // property | lemma
-	Lift        string   `json:"lift,omitempty"`
-	Domain      string   `json:"domain"` // BV | FP | EXACT | mixed
-	Bounds      string   `json:"bounds"`
-	Outside     string   `json:"outside,omitempty"`
-	Reach       []string `json:"reach"`
-	Merge       []string `json:"merge,omitempty"`
-	Hunt        bool     `json:"hunt,omitempty"`
-	Unwind      int      `json:"unwind,omitempty"`
-	MaxPicks    int      `json:"max_picks,omitempty"`
-	AllocBudget int64    `json:"alloc_budget,omitempty"`
-	MaxPaths    int      `json:"max_paths,omitempty"`
-	DeadlineSec int      `json:"deadline_sec,omitempty"`
-	MapOrders   []string `json:"map_orders,omitempty"`
-	Disabled    bool     `json:"disabled,omitempty"`
+	Name         string   `json:"name"`     // key in vfHarnesses
+	Property     string   `json:"property"` // C01..C20
+	Pkg          string   `json:"pkg"`      // geom | rtree
+	Func         string   `json:"func"`
+	Tier         string   `json:"tier"` // quick | thorough
+	Kind         string   `json:"kind"` // property | lemma
+	Lift         string   `json:"lift,omitempty"`
+	Domain       string   `json:"domain"` // BV | FP | EXACT | mixed
+	Bounds       string   `json:"bounds"`
+	Outside      string   `json:"outside,omitempty"`
+	Reach        []string `json:"reach"`
+	Merge        []string `json:"merge,omitempty"`
+	Hunt         bool     `json:"hunt,omitempty"`
+	Unwind       int      `json:"unwind,omitempty"`
+	MaxPicks     int      `json:"max_picks,omitempty"`
+	AllocBudget  int64    `json:"alloc_budget,omitempty"`
+	MaxPaths     int      `json:"max_paths,omitempty"`
+	DeadlineSec  int      `json:"deadline_sec,omitempty"`
+	MapOrders    []string `json:"map_orders,omitempty"`
+	AbstractConv bool     `json:"abstract_conv,omitempty"`
+	// Seeds: concrete inputs replayed natively (expected to pass); they
+	// witness reachability of the labels for harnesses whose solver models go
+	// through uninterpreted functions and are therefore not replayable.
+	Seeds    []map[string]string `json:"seeds,omitempty"`
+	Disabled bool                `json:"disabled,omitempty"`
 }
 
 type KnownFinding struct {
@@ -365,6 +370,7 @@ func cmdCheck(args []string) int {
 			spec.Cfg.Unwind = h.Unwind
 			spec.Cfg.MaxPicks = h.MaxPicks
 			spec.Cfg.AllocBudget = h.AllocBudget
+			spec.Cfg.AbstractConv = h.AbstractConv
 			spec.Cfg.Merge = map[string]bool{}
 			for _, m := range h.Merge {
 				spec.Cfg.Merge[m] = true
@@ -438,6 +444,11 @@ func cmdCheck(args []string) int {
 			for _, l := range r.h.Reach {
 				need[l] = true
 			}
+			for k, sd := range r.h.Seeds {
+				w := witness{Harness: r.h.Name, Inputs: sd, Expect: "ok", Kind: "seed", Trace: fmt.Sprint("seed", k)}
+				prefs = append(prefs, pref{nil, r.h, r.h.Pkg, len(perPkg[r.h.Pkg])})
+				perPkg[r.h.Pkg] = append(perPkg[r.h.Pkg], w)
+			}
 			taken := 0
 			for _, p := range cands {
 				useful := false
@@ -455,6 +466,9 @@ func cmdCheck(args []string) int {
 					continue
 				}
 				w.Expect, w.Reached, w.Observed, w.Trace = "ok", p.Reached, p.Observed, decs(p.Trace)
+				if len(p.UFUsed) > 0 || len(p.Inexact) > 0 {
+					w.Kind = "uf"
+				}
 				prefs = append(prefs, pref{p, r.h, r.h.Pkg, len(perPkg[r.h.Pkg])})
 				perPkg[r.h.Pkg] = append(perPkg[r.h.Pkg], w)
 				taken++
@@ -472,11 +486,39 @@ func cmdCheck(args []string) int {
 	}
 
 	// ---- translator validation
-	validated, disagreements := 0, 0
+	validated, disagreements, seedsOK := 0, 0, 0
 	nativeReached := map[string]map[string]bool{}
 	var disagreeMsgs []string
+	skippedUF := 0
 	for _, pr := range prefs {
 		o := outs[pr.pkg][pr.idx]
+		wk := perPkg[pr.pkg][pr.idx].Kind
+		if wk == "seed" {
+			if o.Outcome != "ok" {
+				disagreements++
+				disagreeMsgs = append(disagreeMsgs, fmt.Sprintf("%s seed %v: native %s %q", pr.h.Name, perPkg[pr.pkg][pr.idx].Inputs, o.Outcome, o.Msg))
+				continue
+			}
+			seedsOK++
+			if nativeReached[pr.h.Name] == nil {
+				nativeReached[pr.h.Name] = map[string]bool{}
+			}
+			for _, l := range o.Reached {
+				nativeReached[pr.h.Name][l] = true
+			}
+			continue
+		}
+		if wk == "uf" {
+			// the model interprets uninterpreted functions freely: it need not be
+			// a real execution; only an agreeing replay counts
+			exp := strings.Join(pr.p.Reached, ",")
+			if o.Outcome == "ok" && exp == strings.Join(uniqSorted(o.Reached), ",") {
+				validated++
+			} else {
+				skippedUF++
+			}
+			continue
+		}
 		okk := o.Outcome == "ok"
 		if okk {
 			exp := append([]string{}, pr.p.Reached...)
@@ -593,8 +635,16 @@ func cmdCheck(args []string) int {
 	// ---- vacuity
 	var vacuous []string
 	for _, r := range runs {
+		symReached := map[string]bool{}
+		for _, hr := range r.rs {
+			for _, p := range hr.Paths {
+				for _, l := range p.Reached {
+					symReached[l] = true
+				}
+			}
+		}
 		for _, l := range r.h.Reach {
-			if !nativeReached[r.h.Name][l] {
+			if !symReached[l] || !nativeReached[r.h.Name][l] {
 				vacuous = append(vacuous, r.h.Name+":"+l)
 			}
 		}
@@ -708,14 +758,16 @@ func cmdCheck(args []string) int {
 			"branch_sides_decided_by_cached_model": stats.ModelHits,
 			"z3_s":                                 float64(stats.NanosZ3) / 1e9, "z3_new_s": float64(stats.NanosZ3N) / 1e9, "cvc5_s": float64(stats.NanosCVC5) / 1e9, "total_s": solverS,
 		},
-		"stubs_hit":                stubs,
-		"uninterpreted_ops":        ufs,
-		"inexact_ops":              inexact,
-		"inconclusive":             dedup(inconclusive),
-		"spurious_models":          spurious,
-		"translator_disagreements": disagreements,
-		"vacuous_labels":           vacuous,
-		"known_findings_observed":  keys(seenKnown),
+		"stubs_hit":                     stubs,
+		"uninterpreted_ops":             ufs,
+		"inexact_ops":                   inexact,
+		"inconclusive":                  dedup(inconclusive),
+		"spurious_models":               spurious,
+		"translator_disagreements":      disagreements,
+		"uf_path_models_not_replayable": skippedUF,
+		"native_seeds_passed":           seedsOK,
+		"vacuous_labels":                vacuous,
+		"known_findings_observed":       keys(seenKnown),
 	}
 	ev.Assumptions = []string{
 		"64-bit int, little-endian amd64 float semantics without FMA contraction, single goroutine",
